@@ -32,7 +32,7 @@ func TestMain(m *testing.M) {
 		"round trip through a stub upstream behind the real chain + dispatcher + reverse proxy on loopback HTTP/1.1; requests are written byte by byte on a fresh connection so the wire form is the generated one",
 		"'same path' is decided on the decoded path (an escaped '/' reaches the upstream unescaped; both ends act on URL.Path); query parameters are compared as key -> ordered values under url.ParseQuery",
 		"headers the upstream may see although the client did not send them: Accept-Encoding, User-Agent, X-Forwarded-For, Authorization (gateway credential), Impersonate-*, Content-Length, Transfer-Encoding; headers the client may see although the upstream did not send them: Date, Content-Length, Transfer-Encoding, Connection, Cache-Control (gateway value prepended)",
-		"Upgrade (SPDY / websocket) requests, CORS response headers (removed by design) and HTTP/2 are outside the generated domain",
+		"upgrade requests (SPDY / websocket style) are generated at byte level: the stub answers 101 and echoes, no real SPDY or websocket framing is spoken; on the upgrade path a bearer-token gateway credential is not added by the gateway (observation, see DESIGN 9.3), so there the upstream may see no Authorization header at all; CORS response headers (removed by design) and HTTP/2 are outside the generated domain",
 		"Go runtime, net/http, pgregory.net/rapid v1.3.0",
 	)
 	stats.Main(m)
